@@ -27,7 +27,7 @@ BOUNDS = {"rows": "12-400", "features": "1-3"}
 ASSUMPTIONS = ["the byte string is not compared (hash-ordered feature lists are representation only)"]
 BUDGET = {"quick": 800, "thorough": 30000}
 DEADLINE_S = {"quick": 200, "thorough": 3300}
-CLASSES = CARVERS + PIPELINES + STEPS + ("BinaryCarver", "ContinuousCarver", "Discretizer", "QuantitativeDiscretizer")
+CLASSES = CARVERS + PIPELINES + STEPS + ("BinaryCarver", "ContinuousCarver", "Discretizer", "QuantitativeDiscretizer", "ChainedDiscretizer")
 INF = float("inf")
 POOLS = ["small_int", "dyadic", "half", "yyyymm", "big", "near", "tiny", "huge", "tenth", "tenth", "tenth"]
 F32_OK = ("small_int", "dyadic", "half", "tenth")
